@@ -39,6 +39,9 @@ SPEC = {
         "GCC/clang little-endian bit-field ABI) and gets its own pair `<pgn>w<k>`, obligations and harness tuples",
         "every own-PGN parse in the harness is repeated on the payload cut to EVERY shorter length with two different garbage "
         "fillings behind DataLen; return value and outputs must be identical (key C05:<pair>:junk-dependent)",
+        "NA remap: the source form `if (x == 2^n-1) x = U;` right after an n-bit field is extracted (130311 humidity source) is "
+        "read as Pair.naRemap; the harness then does not treat the field's all-ones pattern as a value of its own (it IS the "
+        "enumeration's NA on the wire)",
         "scaled fields are exchanged as integer codes: the harness calls the setter with code*resolution and converts the "
         "parsed double back with the parser-side resolution literal; the double<->code conversion itself is property C06. "
         "For 8-byte fields the harness searches the neighbouring doubles with the library's own Add8ByteDouble for one that "
@@ -70,6 +73,6 @@ MANIFEST = {
     'note': "Trusted: Lean kernel; the translator (validated by the differential run on every run, and by a failing `decide` "
             "whenever setter and parser disagree); IEEE conversion of scaled fields is C06's; string content is C16's. Not "
             "translated (oracle only): 126464, Append builders / 129540 satellites, variable strings and what follows them, "
-            "floating-point conditionals. Models the tree with the ten C05 fix commits; one open finding (130311 humidity source "
-            "NA) is stated as a kernel-checked mismatch.",
+            "floating-point conditionals. Models the tree with the eleven C05 fix commits (the last one, 425635f, repairs the 130311 "
+            "humidity-source NA, read by the translator as an NA remap of the 2-bit field); no open finding.",
 }
